@@ -228,8 +228,18 @@ class Runner(object):
         for i, st in enumerate(case.get('starts') or []):
             self._spawn_start(i, st)
         self.pending_ops = sorted(
-            [dict(op, _i=i) for i, op in enumerate(case.get('ops') or [])],
+            [dict(op, _i=i) for i, op in enumerate(case.get('ops') or [])
+             if op.get('at_time') is None],
             key=lambda o: (o.get('at_step', 0), o['_i']))
+        for i, op in enumerate(case.get('ops') or []):
+            if op.get('at_time') is not None:
+                # issued at a virtual time (seconds after the start)
+                self.sim.add_timer(op['at_time'], 'op',
+                                   lambda op=dict(op, _i=i):
+                                   self.issue_op(op))
+        if case.get('async_delays'):
+            ad = case['async_delays']
+            self.world.async_delay = lambda tag: ad.get(tag, 0.0)
         if self.pending_ops or case.get('faults'):
             self.sim.monitors.append(self._inject_due)
         self.pending_faults = sorted(
